@@ -17,6 +17,7 @@ One operation per input line, one answer per output line.  Arguments are hex-enc
   D                        digest of the compiled-in tables
 -/
 import SpdxVerif.Model.Cost
+import SpdxVerif.Model.GoShaped
 open Spdx
 
 def hexVal (c : Char) : Nat :=
@@ -130,9 +131,10 @@ def handle (line : String) : String :=
     | .ok n => "ok " ++ showNode n
     | .error _ => "err"
   | ["Q", e] =>
-    match parse (unhex e) with
-    | .ok _ => "ok"
-    | .error _ => "err"
+    match G.parse (unhex e) with
+    | .ok (some _) => "ok"
+    | .ok none => "err"
+    | .panic => "panic"
   | ["K", e] =>
     let b := unhex e
     let toks := match scan b with | .ok ts => ts.length | .error _ => 0
